@@ -157,9 +157,25 @@ Print Assumptions c01_spec_multi_reflect.
 (* the walk over the assertions in closed form: the number rule, and the verdict of the earlier rounds on the Response
    taken together with every single one of its assertions *)
 Theorem c01_multi_decomposition :
-  forall c mm, parse_mmsg c mm = count_ok (mm_asl mm) && forallb (fun x => parse_message c (as_msg mm x)) (mm_asl mm).
+  forall c mm, parse_mmsg c mm = negb (several_unsigned mm)
+                                 && (count_ok (mm_asl mm) && forallb (fun x => parse_message c (as_msg mm x)) (mm_asl mm)).
 Proof. exact decomposition. Qed.
 Print Assumptions c01_multi_decomposition.
+
+(* the model follows /repo fix 6a3bb24f (C02-F4: several individually signed assertions in an unsigned Response were merged
+   into one report): parse_assertion now ends with `len(self.assertions) > 1 and not self.response.signature ->
+   InvalidAssertion`.  The fix is conservative: today's walk refuses what the walk before it (Model.parse_mmsg_v0) refused
+   and, besides that, exactly the Responses with more than one assertion that carry no signature of their own; the walk
+   before it was the plain decomposition *)
+Theorem c01_multi_fix_conservative :
+  forall c mm, parse_mmsg c mm = negb (several_unsigned mm) && parse_mmsg_v0 c mm.
+Proof. exact fix_conservative. Qed.
+Print Assumptions c01_multi_fix_conservative.
+
+Theorem c01_multi_v0_decomposition :
+  forall c mm, parse_mmsg_v0 c mm = count_ok (mm_asl mm) && forallb (fun x => parse_message c (as_msg mm x)) (mm_asl mm).
+Proof. exact decomposition_v0. Qed.
+Print Assumptions c01_multi_v0_decomposition.
 
 (* whatever the options: no identity unless the signature of EVERY assertion that carries one verifies - the second
    encrypted assertion as much as the first *)
@@ -331,15 +347,16 @@ Print Assumptions c01_source2_chain_client.
    EncryptedData per call, DecryptError when none is left; response_from_string / find_encrypt_data read the text as it
    then is; _assertion and decrypt_assertions answer what Model.run_chk says), with ANY fuel above the number of
    EncryptedData: it ends with the exception of the first failing check of the model's walk (number rule; plain
-   assertions; signatures of ALL decrypted assertions; their remaining checks) or with True and
+   assertions; signatures of ALL decrypted assertions; their remaining checks; since fix 6a3bb24f the repaired number
+   rule: more than one processed assertion in a Response without signature) or with True and
    self.assertions = all decrypted assertions followed by the plain ones, self.assertion the first of them,
    self.response.encrypted_assertion emptied, self.xmlstr the fully decrypted text.  Domain: every list of at most 3
    assertions (20^0 + .. + 20^3 = 8421), and the lists of at most 5 over {no / good / bad signature} x {plain, encrypted}
-   (9331), by one evaluation each with a free surplus of fuel. *)
+   (9331), each with a signed and an unsigned Response, by one evaluation each with a free surplus of fuel. *)
 Theorem c01_source2_parse_assertion :
-  forall (q : bool) (l : list item) (fuel : nat),
+  forall (q rsigned : bool) (l : list item) (fuel : nat),
   in_domain l -> (List.length (filter i_enc l) < fuel)%nat ->
-  pa_view (pa_run fuel q l) = pa_expected q l.
+  pa_view (pa_run fuel q rsigned l) = pa_expected q rsigned l.
 Proof. exact src2_parse_assertion_is_model. Qed.
 Print Assumptions c01_source2_parse_assertion.
 
@@ -348,7 +365,7 @@ Print Assumptions c01_source2_parse_assertion.
 Theorem c01_source2_parse_assertion_verify_all :
   forall (only_md q : bool) (mm : mmsg) (fuel : nat),
   (List.length (mm_asl mm) <= 3)%nat -> (List.length (enc_of (mm_asl mm)) < fuel)%nat ->
-  outcome_of_name (exc_of (pa_view (pa_run fuel q (items_of only_md mm))))
+  outcome_of_name (exc_of (pa_view (pa_run fuel q (r_signed mm) (items_of only_md mm))))
   = verify_all q (count_ok (mm_asl mm)) (schedule only_md mm).
 Proof. exact src2_parse_assertion_verify_all. Qed.
 Print Assumptions c01_source2_parse_assertion_verify_all.
